@@ -46,7 +46,7 @@ pub enum C18Case {
     /// concurrent create/use/drop in a child process (a crash of the child is a violation):
     /// half of the threads hold pools of 1-8 page buffers and keep re-verifying their content,
     /// the others churn bigger buffers (`big`: multiples of 2 MiB)
-    Churn { threads: u8, rounds: u16, seed: u32, big: bool },
+    Churn { threads: u8, rounds: u16, seed: u32, big: bool, #[serde(default)] refuse: bool },
     /// aliasing of the two halves: every byte offset
     Alias { pages: u8, shift: u16 },
 }
@@ -102,7 +102,7 @@ impl Prop for C18 {
         prop_oneof![
             8 => history_strategy(tier.pick(120, 200) as usize),
             1 => (1u8..5, any::<u16>()).prop_map(|(pages, shift)| C18Case::Alias { pages, shift }),
-            1 => (2u8..13, 20u16..300, any::<u32>(), any::<bool>()).prop_map(|(threads, rounds, seed, big)| C18Case::Churn { threads, rounds, seed, big }),
+            1 => (3u8..13, 20u16..300, any::<u32>(), any::<bool>(), any::<bool>()).prop_map(|(threads, rounds, seed, big, refuse)| C18Case::Churn { threads, rounds, seed, big, refuse }),
             1 => (elem_strategy(), 1usize..16, 12u32..60, prop::sample::select(&[0usize, 0, 0, 1, 2048, 4096][..]))
                 .prop_map(|(elem, m, sh, off)| C18Case::Setup { elem, size: (m << sh) + off }),
         ]
@@ -144,13 +144,13 @@ impl Prop for C18 {
         match case {
             C18Case::Setup { elem, size } => run_setup(*elem, *size, ctx),
             C18Case::SetupBig { big, pages } => run_setup_big(*big, *pages, ctx),
-            C18Case::Churn { threads, rounds, seed, big } => run_churn(*threads, *rounds, *seed, *big, ctx),
+            C18Case::Churn { threads, rounds, seed, big, refuse } => run_churn(*threads, *rounds, *seed, *big, *refuse, ctx),
             C18Case::Alias { pages, shift } => run_alias(*pages, *shift, ctx),
             C18Case::History { threads, streams, use_them } => run_history(*threads, streams, *use_them, ctx),
         }
     }
     fn rule(&self) -> String {
-        "generated: create/drop histories of 1..200 stream buffers of 1-8 pages and 4 element types, created by the main thread and dropped (after optional use) by 1-8 threads in generated order; enumerated set-up table and aliasing table; concurrent churn in a child process (2-12 threads: holders keep pools of 1-8 page buffers with known content straddling the wrap and re-verify them, churners create/verify/drop buffers of up to 64 pages or of 2/4/6 MiB; a crash of the child, a changed byte, broken aliasing or a leftover mapping is a violation); child-process fault campaigns (RLIMIT_AS lowered so that mmap fails after k buffers; map-count exhaustion with both parities so that the first or the second, MAP_FIXED, step fails). Oracle: after joining, the number of /proc/self/maps entries of deleted files and of /proc/self/fd entries equals the baseline taken at the start of the case; while a buffer lives its two halves are two adjacent mappings of one inode at offset 0, each `size` long, and every byte written through one half is read through the other; invalid configurations give Err from Buffer::new with no mapping left behind; injected mapping failures are Err (no panic/abort), repeated failures do not grow the mapping count, surviving and fresh streams still pass a wrap-forcing history. Non-trivial: >= 2 threads and >= 20 streams, or an injected failure occurred, or an enumerated table entry; distinct = hash of the case.".into()
+        "generated: create/drop histories of 1..200 stream buffers of 1-8 pages and 4 element types, created by the main thread and dropped (after optional use) by 1-8 threads in generated order; enumerated set-up table and aliasing table; concurrent churn in a child process (2-12 threads: holders keep pools of 1-8 page buffers with known content straddling the wrap and re-verify them, churners create/verify/drop buffers of up to 64 pages or of 2/4/6 MiB, and optionally every third thread keeps requesting sizes that must be refused; a crash of the child, a changed byte, broken aliasing or a leftover mapping is a violation); child-process fault campaigns (RLIMIT_AS lowered so that mmap fails after k buffers; map-count exhaustion with both parities so that the first or the second, MAP_FIXED, step fails). Oracle: after joining, the number of /proc/self/maps entries of deleted files and of /proc/self/fd entries equals the baseline taken at the start of the case; while a buffer lives its two halves are two adjacent mappings of one inode at offset 0, each `size` long, and every byte written through one half is read through the other; invalid configurations give Err from Buffer::new with no mapping left behind; injected mapping failures are Err (no panic/abort), repeated failures do not grow the mapping count, surviving and fresh streams still pass a wrap-forcing history. Non-trivial: >= 2 threads and >= 20 streams, or an injected failure occurred, or an enumerated table entry; distinct = hash of the case.".into()
     }
     fn assumptions(&self) -> Vec<String> {
         vec![
@@ -269,9 +269,12 @@ fn try_new(elem: ElemKind, size: usize) -> Result<Result<(), String>, crate::eng
     }
 }
 
-fn run_churn(threads: u8, rounds: u16, seed: u32, big: bool, ctx: &mut Ctx) {
+fn run_churn(threads: u8, rounds: u16, seed: u32, big: bool, refuse: bool, ctx: &mut Ctx) {
     ctx.class(if big { "churn/2MiB-multiples" } else { "churn/page-multiples" });
-    let args = vec!["child".to_string(), "churn".into(), threads.to_string(), rounds.to_string(), seed.to_string(), if big { "1" } else { "0" }.to_string()];
+    if refuse {
+        ctx.class("churn/with-refused-set-ups");
+    }
+    let args = vec!["child".to_string(), "churn".into(), threads.to_string(), rounds.to_string(), seed.to_string(), if big { "1" } else { "0" }.to_string(), if refuse { "1" } else { "0" }.to_string()];
     let (code, out) = run_child(&args, 120);
     match (code, parse_child(&out)) {
         (Some(0), Some(v)) => {
